@@ -487,6 +487,10 @@ def apply_op(solver, rec, op, k, case_tag):
     st = rec.state
     if st.get("pending_term") is not None and o != "Step":
         solver.SetTermination(st.pop("pending_term"))            # no Step follows directly: an ordinary SetTermination call after all
+    if st.get("pending_pen") is not None and o != "Step":
+        solver.SetPenalty(st.pop("pending_pen")[0])              # no Step follows directly: an ordinary call after all
+    if st.get("pending_emon") is not None and o != "Step":
+        solver.SetEvaluationMonitor(st.pop("pending_emon"))
     if st.get("pending_cons") is not None and o != "Step":
         solver.SetConstraints(st.pop("pending_cons")[0])       # no Step follows directly: an ordinary SetConstraints call after all
         st.pop("pending_prev", None)
@@ -494,7 +498,11 @@ def apply_op(solver, rec, op, k, case_tag):
         st["cost_k"] = k
         solver.SetObjective(CostFn(op["cost"], k, tag))
     elif o == "SetPenalty":
-        solver.SetPenalty(PenFn(op["pen"], k, case_tag) if op["pen"]["kind"] != "none" else None)
+        pf = PenFn(op["pen"], k, case_tag) if op["pen"]["kind"] != "none" else None
+        if op.get("defer") and pf is not None:
+            st["pending_pen"] = (pf, st.get("pen_k"))        # handed to the next Step as its `penalty=` keyword
+        else:
+            solver.SetPenalty(pf)
         st["pen_k"] = k
     elif o == "SetConstraints":
         ident = op["cons"]["kind"] == "ident" and not op["cons"].get("inplace")
@@ -532,7 +540,10 @@ def apply_op(solver, rec, op, k, case_tag):
         else:
             solver.SetTermination(make_term(op["term"]))
     elif o == "SetEvalMonitor":
-        solver.SetEvaluationMonitor(solver._evalmon if op.get("same") else Monitor(), new=op["new"])
+        if op.get("defer") and not op.get("same") and not op["new"]:
+            st["pending_emon"] = Monitor()                   # handed to the next Step as its `EvaluationMonitor=` keyword
+        else:
+            solver.SetEvaluationMonitor(solver._evalmon if op.get("same") else Monitor(), new=op["new"])
     elif o == "SetStepMonitor":
         solver.SetGenerationMonitor(Monitor(), new=op["new"])
     elif o == "SetRandomInitialPoints":
@@ -542,7 +553,10 @@ def apply_op(solver, rec, op, k, case_tag):
             solver.SetRandomInitialPoints(list(op["lo"]), list(op["hi"]))
         res["pop"] = [_vec(p) for p in solver.population]
     elif o == "SetInitialPoints":
-        solver.SetInitialPoints(list(op["x0"]))
+        if op.get("how") == "multinormal":      # (C07) drawn from numpy's global generator around x0
+            solver.SetMultinormalInitialPoints(list(op["x0"]), op.get("var", 0.25))
+        else:
+            solver.SetInitialPoints(list(op["x0"]))
         res["pop"] = [_vec(p) for p in solver.population]
     elif o == "Step":
         kw = dict(callback=CbFn(tag)) if op.get("cb", False) else {}
@@ -552,7 +566,16 @@ def apply_op(solver, rec, op, k, case_tag):
             kw["constraints"] = pend[0]
         if st.get("pending_term") is not None:
             kw["termination"] = st.pop("pending_term")           # Step(termination=T): registered before the check that precedes the iteration
+        ppen, pemon = st.pop("pending_pen", None), st.pop("pending_emon", None)
+        if ppen is not None:
+            kw["penalty"] = ppen[0]
+        if pemon is not None:
+            kw["EvaluationMonitor"] = pemon
         msg = solver.Step(**kw)
+        if ppen is not None and solver._penalty is not ppen[0]:
+            st["pen_k"] = ppen[1]; res["kw_dropped"] = True      # the Step refused to start: its keywords were never read
+        if pemon is not None and solver._evalmon is not pemon:
+            res["kw_dropped"] = True
         if pend is not None:
             prev = st.pop("pending_prev", (None, None, None))
             if pend[0] is not None and solver._constraints is not pend[0]:
@@ -586,7 +609,7 @@ def _de_kwds(op):
     if "strategy" in k:
         import mystic.strategy as st
         out["strategy"] = getattr(st, k["strategy"])
-    for name in ("CrossProbability", "ScalingFactor"):
+    for name in ("CrossProbability", "ScalingFactor", "adaptive", "radius", "xtol", "imax"):      # (Nelder-Mead / Powell options are sticky too)
         if name in k:
             out[name] = k[name]
     return out
@@ -723,6 +746,8 @@ def script_coq(case, out):
         o = op["op"]
         if o == "SetObjective":
             ops.append("@OSetObjective NumF _ (lookup_y %s)" % tab_cost(k))
+        elif o in ("SetPenalty", "SetEvalMonitor") and op.get("defer") and k + 1 < len(out["opres"]) and out["opres"][k + 1].get("kw_dropped"):
+            ops.append("@OSameEvalMonitor NumF _")       # handed to a Step that refused to start: never installed (a no-op of the machine)
         elif o == "SetPenalty":
             ops.append("@OSetPenalty NumF _ (lookup_e %s)" % tab_pen(k) if op["pen"]["kind"] != "none" else "@OSetPenalty NumF _ (fun _ => 0%float)")
         elif o == "SetConstraints":
